@@ -313,6 +313,67 @@ def rule_R13_desugar(text):
     return text, n
 
 
+def rule_R2b_loadstore(text, names):
+    """R2b (opt-in, `//@ loadstore a b`): `X.load(I)` -> `X[I]`, `X.store(V, I)` -> `X[I] = V` for the named parameters, and their
+    `impl LoadStore<T>` / `impl Load<T>` types -> `&mut [Complex<T>]` / `&[Complex<T>]`.  LoadStore for slices *is*
+    get_unchecked (src/array_utils.rs:38-49), so as with R2 the unchecked bound becomes the proof obligation."""
+    n = 0
+    for nm in names:
+        text, k = re.subn(r'\b(mut\s+)?%s\s*:\s*impl\s+LoadStore<T>' % nm, '%s: &mut [Complex<T>]' % nm, text)
+        n += k
+        text, k = re.subn(r'\b%s\s*:\s*impl\s+Load<T>' % nm, '%s: &[Complex<T>]' % nm, text)
+        n += k
+        while True:
+            m = rsscan.mask(text)
+            mt = re.search(r'\b%s\.(load|store)\s*\(' % nm, m)
+            if not mt:
+                break
+            op = mt.end() - 1
+            cl = rsscan.match_close(m, op)
+            parts = split_top_commas(m, op + 1, cl)
+            old = text[mt.start():cl + 1]
+            if mt.group(1) == 'load':
+                new = '%s[%s]' % (nm, text[parts[0][0]:parts[0][1]].strip())
+            else:
+                new = '%s[%s] = %s' % (nm, text[parts[1][0]:parts[1][1]].strip(), text[parts[0][0]:parts[0][1]].strip())
+            text = text[:mt.start()] + _pad_newlines(old, new) + text[cl + 1:]
+            n += 1
+    return text, n
+
+
+def rule_R13b_chunks(text):
+    """R13b (with `//@ desugar`): `for D in X.chunks_exact_mut(N) { B }` -> `let mut k = 0; while k + N <= X.len() { let D = &mut X[k..k + N]; B k += N; }`
+    (chunks_exact_mut panics for N == 0: kept as `verif_assert(N != 0)`)."""
+    n = 0
+    while True:
+        m = rsscan.mask(text)
+        hit = None
+        for mt in re.finditer(r'\bfor\s+(\w+)\s+in\s+', m):
+            if not rsscan.is_stmt_start(m, mt.start(), 0):
+                continue
+            bo = rsscan.find_body_open(m, mt.end())
+            if bo < 0:
+                continue
+            hdr = ' '.join(text[mt.end():bo].split())
+            z = re.fullmatch(r'(.+?)\.chunks_exact_mut\((.+?)\)', hdr)
+            if z:
+                hit = (mt.start(), bo, z.group(1), z.group(2), mt.group(1))
+                break
+        if not hit:
+            break
+        a, bo, x, cn, dv = hit
+        bc = rsscan.match_close(m, bo)
+        k = 'verif_c%d' % n
+        head = 'verif_assert(%s != 0); let mut %s: usize = 0; while %s.len() - %s >= %s /*@R13 %s.len() - %s @*/ ' % (cn, k, x, k, cn, x, k)
+        first = '{ let %s = &mut %s[%s..%s + %s]; ' % (dv, x, k, k, cn)
+        body = text[bo + 1:bc]
+        old = text[a:bc + 1]
+        new = head + '\n' * text[a:bo].count('\n') + first + body + ' %s += %s; }' % (k, cn)
+        text = text[:a] + new + text[bc + 1:]
+        n += 1
+    return text, n
+
+
 def annotate_closure(text, k, params, spec):
     """R1 (closures): give the k-th closure literal typed parameters and a requires/ensures clause."""
     m = rsscan.mask(text)
@@ -412,6 +473,7 @@ class FnEdit:
         self.afterloops = {}
         self.attrs = []
         self.desugar = False
+        self.loadstore = []
 
 
 class Generator:
@@ -590,6 +652,8 @@ class Generator:
                     e.shape = True
                 elif c == 'desugar':
                     e.desugar = True
+                elif c == 'loadstore':
+                    e.loadstore = tok[1:]
                 elif c == 'attr':
                     e.attrs.append(d[len('attr'):].strip())
                 elif c == 'closure':
@@ -761,11 +825,17 @@ class Generator:
                 raise Inconclusive('%s: local rewrite %r did not match' % (path, rg))
             self._count('local-sub', k)
             self.log.append({'rule': 'local-sub', 'fn': path, 'regex': rg, 'repl': rp, 'count': k})
+        if edit.loadstore:
+            text, k = rule_R2b_loadstore(text, edit.loadstore)
+            if k:
+                self._count('R2b', k)
+                self.log.append({'rule': 'R2b', 'fn': path, 'count': k})
         if edit.desugar:
             text, k = rule_R13_desugar(text)
-            if k:
-                self._count('R13', k)
-                self.log.append({'rule': 'R13', 'fn': path, 'count': k})
+            text, k2 = rule_R13b_chunks(text)
+            if k + k2:
+                self._count('R13', k + k2)
+                self.log.append({'rule': 'R13', 'fn': path, 'count': k + k2})
         if edit.shape:
             text, k = rule_R8_R11_shape(text)
             if k:
